@@ -232,7 +232,7 @@ func c06Run(c core.Case) *core.Result {
 			r.Violate("bam|write", "writing the records to BAM: %v", err)
 			return r
 		}
-		br, err := bam.NewReader(bytes.NewReader(buf.Bytes()), 1)
+		br, err := bam.NewReader(wrapSource(buf.Bytes(), rng.Intn(4), rng), 1)
 		if err != nil {
 			r.Violate("bam|read", "bam.NewReader: %v", err)
 			return r
@@ -317,7 +317,17 @@ func c06Reader(r *core.Result, c core.Case, refs []oracle.RefSpec, h *sam.Header
 	r.Sample = map[string]any{"config": cfg}
 	r.Count("reader_inputs", 1)
 	pv, st := core.Recover(func() {
-		sr, err := sam.NewReader(strings.NewReader(text.String()))
+		// plain, short reads, or the last bytes together with io.EOF
+		var ssrc io.Reader = strings.NewReader(text.String())
+		switch rng.Intn(4) {
+		case 1:
+			ssrc = wrapSource([]byte(text.String()), 2, rng)
+		case 2:
+			ssrc = &eagerEOF{b: []byte(text.String())}
+		case 3:
+			ssrc = &eagerEOF{b: []byte(text.String()), max: 1 + rng.Intn(5000)}
+		}
+		sr, err := sam.NewReader(ssrc)
 		if err != nil {
 			if text.Len() == 0 && err == io.EOF {
 				return // empty input
